@@ -38,6 +38,21 @@ const (
 	AuthReasonUnauthorized AuthReason = "unauthorized"
 )
 
+// known reports whether r is a member of the closed set above. AuthReason is
+// a plain string type, so an authenticator can put anything in
+// [AuthFailure.Reason]; the wire only ever carries a member of the set, and
+// anything else (including the empty string) is reported as
+// [AuthReasonUnauthorized].
+func (r AuthReason) known() bool {
+	switch r {
+	case AuthReasonMissingCredential, AuthReasonInvalidCredential,
+		AuthReasonExpiredCredential, AuthReasonInsufficientScope,
+		AuthReasonProxyRequired, AuthReasonUnauthorized:
+		return true
+	}
+	return false
+}
+
 // Response headers carrying the rejection's machine-readable shape. Both
 // describe a rejection, so neither is emitted on a successful response —
 // they are not capability advertisements.
@@ -56,7 +71,8 @@ const (
 // unclassified failure would mean matching on message text, which
 // misclassifies the moment someone rewords a string.
 type AuthFailure struct {
-	// Reason is the code reported on the wire.
+	// Reason is the code reported on the wire. A value outside the closed
+	// set is reported as [AuthReasonUnauthorized].
 	Reason AuthReason
 	// Detail is human-readable and may be empty. Free text — never a
 	// verifier's per-attempt state, which would leak which stage rejected.
@@ -82,7 +98,7 @@ func classifyAuthError(err error) (AuthReason, string) {
 	var failure *AuthFailure
 	if ok := asAuthFailure(err, &failure); ok {
 		reason := failure.Reason
-		if reason == "" {
+		if !reason.known() {
 			reason = AuthReasonUnauthorized
 		}
 		return reason, failure.Detail
@@ -163,7 +179,7 @@ func (h *HttpServer) SetProxyAuthHeaders(headers ...string) {
 // directive, the proxy note when this service's auth depends on a proxy,
 // and either the JSON envelope or the HTML page depending on Accept.
 func (h *HttpServer) writeUnauthorized(w http.ResponseWriter, r *http.Request, reason AuthReason, detail string) {
-	if reason == "" {
+	if !reason.known() {
 		reason = AuthReasonUnauthorized
 	}
 	hint := h.proxyHint()
